@@ -13,7 +13,7 @@ from harness.checks import lifelib as L
 C09_KINDS = ['plain', 'body', 'form', 'raise', 'nf', 'm405', 'crash', 'json404', 'hdrs', 'badpath', 'badchunk', 'oversize',
              'badchunk_json', 'oversize_json', 'mutq', 'latin', 'badmp_json', 'signed', 'forged', 'stat_s', 'stat_n', 'bigbody', 'rewrite', 'tenant', 'whoami', 'lazy', 'delc_opts', 'delc_plain',
              'upload_ct', 'upload_bare', 'crashform', 'account', 'about', 'mount', 'stream', 'chunked', 'badcl', 'mprep',
-             'sfile', 'sfile_range', 'sfile_head', 'login401']
+             'sfile', 'sfile_range', 'sfile_head', 'login401', 'gate', 'gate_ok', 'proxied']
 C09_CONFIG = {'max_body_size': 1000, 'max_memfile_size': 128}
 
 
